@@ -88,6 +88,12 @@ def make_mutator(desc):
 
 def _one(args):
     spec_path, prop, target_ref, mid, desc, budget = args
+    import os as _os
+    if _os.environ.get("PYVC_TEST_ABORT") and _os.environ["PYVC_TEST_ABORT"] in mid:
+        _os.abort()          # self-test of the runner: a worker that dies must not hang the run
+    if _os.environ.get("PYVC_TEST_HANG") and _os.environ["PYVC_TEST_HANG"] in mid:
+        import time as _t
+        _t.sleep(10 ** 6)
     from .spec import load_spec
     from .verify import Engine
     from . import solve as SV
@@ -127,6 +133,92 @@ def _one(args):
         return {"id": mid, "target": target_ref, "status": "error", "by": repr(ex)[:300]}
 
 
+def _crashed(job, why):
+    """A worker died (native abort inside the solver library on an ill-formed term of the MUTATED program) or ran out of time: the
+    mutant is not a survivor and not a refutation - counted like a spec that no longer fits the mutated code (how: undecided)."""
+    return {"id": job[3], "target": _target_ref(job), "status": "killed", "by": "engine: " + why, "how": "undecided"}
+
+
+def _target_ref(job):
+    from .spec import load_spec
+    try:
+        return load_spec(job[0], job[1]).targets[job[2]].ref
+    except Exception:  # noqa
+        return "?"
+
+
+def _kill_workers(ex):
+    """terminate the worker processes of an executor (a hung worker would otherwise keep the interpreter from exiting)"""
+    try:
+        for p_ in list((getattr(ex, "_processes", None) or {}).values()):
+            try:
+                p_.kill()
+            except Exception:  # noqa
+                pass
+    except Exception:  # noqa
+        pass
+
+
+def _run_jobs(jobs, per_job_timeout=None):
+    """Run the mutant jobs in worker processes. A worker that dies (SIGABRT from a native assertion) must not hang the run:
+    multiprocessing.Pool.map would wait for ever, so futures are used, a broken pool is rebuilt, and the jobs that were in flight
+    are retried one at a time to single out the one that kills its worker."""
+    from concurrent.futures import ProcessPoolExecutor, as_completed
+    from concurrent.futures.process import BrokenProcessPool
+    import concurrent.futures as cf
+    import os as _os
+    per_job_timeout = per_job_timeout or int(_os.environ.get("PYVC_MUTANT_TIMEOUT", "600"))
+    ctx = mp.get_context("spawn")   # not fork: the parent has used threads (solver pool)
+    results = [None] * len(jobs)
+    pending = list(range(len(jobs)))
+    workers = min(8, len(jobs))
+    rounds = 0
+    while pending and rounds < 4:
+        rounds += 1
+        retry = []
+        ex = ProcessPoolExecutor(max_workers=workers if rounds == 1 else 1, mp_context=ctx)
+        try:
+            if rounds == 1:
+                futs = {ex.submit(_one, jobs[i]): i for i in pending}
+                try:
+                    for f in as_completed(futs, timeout=per_job_timeout * max(1, len(pending) // workers + 1)):
+                        i = futs[f]
+                        try:
+                            results[i] = f.result()
+                        except BrokenProcessPool:
+                            retry.append(i)
+                        except Exception as ex_:  # noqa
+                            results[i] = {"id": jobs[i][3], "target": _target_ref(jobs[i]), "status": "error", "by": repr(ex_)[:300]}
+                except cf.TimeoutError:
+                    retry.extend(i for i in pending if results[i] is None and i not in retry)
+                    _kill_workers(ex)
+            else:
+                # one at a time: the job that breaks the pool (or exceeds its time) is the culprit
+                for i in pending:
+                    try:
+                        results[i] = ex.submit(_one, jobs[i]).result(timeout=per_job_timeout)
+                    except BrokenProcessPool:
+                        results[i] = _crashed(jobs[i], "the worker process died on this mutant (native abort in the solver library)")
+                        ex.shutdown(wait=False, cancel_futures=True)
+                        ex = ProcessPoolExecutor(max_workers=1, mp_context=ctx)
+                    except cf.TimeoutError:
+                        results[i] = _crashed(jobs[i], "no result within %d s" % per_job_timeout)
+                        _kill_workers(ex)
+                        ex.shutdown(wait=False, cancel_futures=True)
+                        ex = ProcessPoolExecutor(max_workers=1, mp_context=ctx)
+                    except Exception as ex_:  # noqa
+                        results[i] = {"id": jobs[i][3], "target": _target_ref(jobs[i]), "status": "error", "by": repr(ex_)[:300]}
+        finally:
+            if retry or any(r_ is None for r_ in results):
+                _kill_workers(ex)
+            ex.shutdown(wait=False, cancel_futures=True)
+        pending = [i for i in retry if results[i] is None] if rounds == 1 else [i for i in pending if results[i] is None]
+    for i in range(len(jobs)):
+        if results[i] is None:
+            results[i] = _crashed(jobs[i], "not completed")
+    return results
+
+
 def run_mutants(spec, engines, tier, budget, seed):
     from .run import spec_path
     jobs = []
@@ -151,9 +243,7 @@ def run_mutants(spec, engines, tier, budget, seed):
             tindex[(t.ref, mid)] = spec.targets.index(t)
     if not jobs:
         return None
-    ctx = mp.get_context("spawn")   # not fork: the parent has used threads (solver pool)
-    with ctx.Pool(min(8, len(jobs))) as pool:
-        res = pool.map(_one, jobs, chunksize=1)
+    res = _run_jobs(jobs)
     eq = {}
     for t in spec.targets:
         for k, why in t.equivalent_mutants.items():
